@@ -36,6 +36,58 @@ CHECKS = {
    technique="exhaustive enumeration of all budget schedules (compositions of the slicing call sites) of a stabilising block, driven through the real heartbeat; state-equality across schedules and probe-equality against the pre-ingestion answers",
    text="For 7 block shapes (spends of stable outputs, same-block spend, non-address scripts, many addresses, several blocks per round, fork discarded by the advance) all 2^(m-1) sequences of per-round budgets (m <= 14 quick, 18 thorough) are run through heartbeat() with a source that always offers a further block: no fetch while ingesting, every pause position reaches one identical state whatever the schedule, all probe answers at pauses equal those before that block's ingestion began, the final state equals the unsliced run, at most m rounds.",
    note="budgets are counted in slicing call sites; statistics masked in fingerprints", ref="DESIGN.md §6 C08"),
+ "C06": dict(cat=MC, engine="E2",
+   technique="explicit-state exploration of pager/environment interleavings on the real canister (all placements of <= k environment events between page requests), plus exhaustive page-blob and real-limit families",
+   text="From every LEDGER state a pager (page size 1/2, filters none / c=1 / c=2) follows next_page while between any two page requests the environment may deliver a block on any live block (tip growth, competing fork, reorg), ingest (unsliced or one step) or upgrade: every page must name the first tip, the concatenation must equal the ledger at that tip, and once the tip left the tree the answer must be UnknownTipBlockHash. ~400 crafted page blobs x 4 addresses never trap; 2001-output address with the real limit.",
+   note="page size 1/2 through hook H3", ref="DESIGN.md §6 C06"),
+ "C09": dict(cat=MC, engine="E1",
+   technique="explicit-state exploration with an upgrade at every message boundary (incl. paused ingestion and, via the schedule explorer of C13, every fetch-protocol phase); complete probe set and complete logical state compared across the upgrade; differential continuation against the run without the upgrade",
+   text="One upgrade (no argument / empty / new threshold / lazy fees) at every boundary of LEDGER histories with sliced ingestion: all probe answers and the complete logical state (syncing flags, per-block metrics, overridden config masked) must be identical before/after; for up to k further events the answers must equal those of the run where the upgrade is replaced by its plain set_config. Fetch-protocol phases (request parked, partial pages stored, complete response stored) are covered by the C13 exploration, which applies the same probe comparison at every Upgrade event.",
+   note="native vector memory stands in for stable memory", ref="DESIGN.md §6 C09"),
+ "C10": dict(cat=MC, engine="E1",
+   technique="explicit-state exploration of base tree states x exhaustive enumeration of get_successors replies (items x announced headers) fed through the real heartbeat; atomicity by state comparison with the prefix-only reply",
+   text="In every TREE state (<= 3-4 blocks) every reply of <= 2-3 items over 21 item kinds and every announced-header list of <= 2-3 entries over 9 kinds: admitted blocks = longest admissible prefix, exactly one error counter +1 on a reject, complete state equal to the state after the prefix-only reply, heartbeat never traps, retained headers sound and complete; direct-call and heartbeat channels give equal states.",
+   note="regtest (mined) blocks only", ref="DESIGN.md §6 C10"),
+ "C11": dict(cat=EX, engine="E3",
+   technique="bounded-exhaustive enumeration of header-chain configurations against an independent re-implementation of Core's difficulty and timestamp rules",
+   text="Complete product of network x candidate position around period boundaries x bits patterns of the last four headers x gaps around 20 minutes x period timespans around the clamps x BIP94 first-bits variants, compared through wrappers of the private rule functions; timestamp rule on 6 patterns x chain lengths 1-14; end-to-end acceptance on regtest with mined/unmined headers.",
+   note="accept side on mainnet/testnet unreachable without real proof of work", ref="DESIGN.md §6 C11"),
+ "C12": dict(cat=EX, engine="E3",
+   technique="bounded-exhaustive enumeration of block mutations against an independent merkle routine and the four clauses of the statement",
+   text="For every transaction count 1..17 (33 thorough): all trailing-2^k duplications closed under composition (every CVE-2012-2459 mutant), every removal, adjacent swap, rotation, coinbase moves/duplicates, with the root left alone and recomputed, through validate_block and insert_block.",
+   note="independent merkle root and txid uniqueness reference", ref="DESIGN.md §6 C12"),
+ "C13": dict(cat=MC, engine="E2",
+   technique="deviation-bounded exhaustive exploration of message schedules at the get_successors await point (heartbeats parked at a cfg-guarded yield point, harness as executor), duplicate detection on complete state",
+   text="All schedules of {start heartbeat, normal/reject/empty reply, upgrade} with <= 4 (quick) / 7 (thorough) deviations from the sequential schedule over a source with a 4-block pool and one block paginated into 1+p pages (p up to 3, and 255): at most one request outstanding, follow-ups numbered consecutively, reassembled block byte-identical, reject/upgrade discard partial data and the next request is initial naming anchor and all other unstable blocks, no block twice, no heartbeat traps, and from every state a fault-free suffix syncs everything the source offers.",
+   note="source honours its protocol; upgrades leak outstanding heartbeats as the IC does", ref="DESIGN.md §6 C13"),
+ "C14": dict(cat=MC, engine="E1",
+   technique="explicit-state exploration of tree histories with announced-header events x flag combinations; every endpoint x requested network called in every state",
+   text="TREE histories with chains of 1-4 announced headers on any live block (overtaken by arrivals, left on discarded forks, reached by the stable height) x the 4 flag combinations: 7 data endpoints x 3 networks must refuse iff access off, network mismatch, or (sync flag and highest connected announced header > best + 2; send_transaction exempt); exempt endpoints always answer.",
+   note="headers of discarded forks are 'either' (C20 lets them be dropped)", ref="DESIGN.md §6 C14"),
+ "C15": dict(cat=MC, engine="E1",
+   technique="explicit-state exploration of fee-carrying histories through the real heartbeat against a stateful reference of the caching rule; exhaustive enumeration of the percentile routine; window boundary family",
+   text="Histories of <= 4-5 blocks with four fee bodies on any live block (forks with different fees, reorgs), upgrades, eager and lazy mode with query events: every answer equals nearest-rank percentiles of the reference fee rates of the chain observed at the last observation point. Percentile routine on n in [1,400] U {9999,10000,10001} x 5 patterns; 10,000-transaction window family.",
+   note="inside the cut block both readings accepted", ref="DESIGN.md §6 C15"),
+ "C16": dict(cat=EX, engine="E3",
+   technique="bounded-exhaustive enumeration of fee tables x instruction counts x requests x available cycles through the real endpoints with controllable cycle and instruction mocks",
+   text="3 default tables + a product of synthetic tables x 8 instruction-counter values x every endpoint (success and each request-level error) x available cycles around the maximum: accepted cycles equal the formula, queries free, underfunded calls refused before any charge; client cost functions cover the default maxima.",
+   note="native cycle mock; maximum >= base", ref="DESIGN.md §6 C16"),
+ "C17": dict(cat=MC, engine="E3",
+   technique="exhaustive enumeration of explorer-result multisets x orders x canister heights through the real decision function, and of all two-round fetch histories through the real fetch/store/health path with mocked HTTP",
+   text="Five target configurations x all multisets of heights in the band +-1 and failures x canister heights x permutations; two-round histories where each explorer independently answers in-band / far-off / failure: the decision equals the statement computed from the latest round alone.",
+   note="inter-canister calls and timers not executed natively", ref="DESIGN.md §6 C17"),
+ "C18": dict(cat=EX, engine="E3",
+   technique="bounded-exhaustive enumeration of HTTP responses (statuses x header sets x generated bodies incl. every prefix and UTF-8 corruption) through all transform functions",
+   text="All 10 exported transforms + the testnet endpoint: never trap, strip headers, keep status, body empty or canonical; extracted value equals the one known from the generating AST; identical bytes across headers, whitespace, member order, extra members.",
+   note="documents rendered from the harness's AST", ref="DESIGN.md §6 C18"),
+ "C19": dict(cat=EX, engine="E3",
+   technique="bounded-exhaustive enumeration of payload mutations against an independent strict transaction parser and exact round trip",
+   text="12 base transactions x every truncation, 1-byte extension, bit flip, marker/flag edge case x access flag x networks through the real async endpoint: success, counting and unchanged forwarding iff well-formed and permitted.",
+   note="payloads where the two references disagree are undecided", ref="DESIGN.md §6 C19"),
+ "C20": dict(cat=MC, engine="E1",
+   technique="explicit-state exploration with a structural oracle over the serialised unstable-block bookkeeping and the block cache in every state",
+   text="LEDGER/TREE histories with discards at different depths, shared transactions, cross-fork spends, upgrades, sliced ingestion: tree order, block cache keys and bytes, per-block address deltas, tx-out cache reference counts and contents, cached tip depths and announced-header maps equal what the blocks below the anchor require, recomputed from block bodies; all queries and fee computations succeed.",
+   note="announced headers exercised in C14 with the same structural checks", ref="DESIGN.md §6 C20"),
 }
 ALL = ["C%02d" % i for i in range(1, 21)]
 hooks_commits = subprocess.run(["git", "-C", "/repo", "log", "--format=%H %s", "6e0e362f..HEAD"],
